@@ -194,7 +194,7 @@ def run(chk):
             pass
         try:
             out = pe.call(fev.qname, [dag.sym("m2ref"), q_from, sc, [Fraction(1)] * 3, xif2, q_to], {"nf_ref": nf_from, "nf_to": nf_to})
-        except (PERaise, dag.Undecidable) as e:
+        except PERaise as e:
             chk.fail("decoupling-relation-applied", fev.qname, f"{inst}: {type(e).__name__} {e}", where=fev.where, instance=inst)
             continue
         n_dec += 1
@@ -258,7 +258,7 @@ def run(chk):
         inst = f"order={order},({q_from},{nf_from})->({q_to},{nf_to})"
         try:
             out = pe.call(fev.qname, [dag.sym("m2ref"), q_from, sc, [mk(0), mk(1), mk(2)], Fraction(1), q_to], {"nf_ref": nf_from, "nf_to": nf_to})
-        except (PERaise, dag.Undecidable, TypeError) as e:
+        except PERaise as e:
             chk.fail("all-powers-of-the-logarithm", fev.qname, f"{inst}: {type(e).__name__} {e}", where=fev.where, instance=inst)
             continue
         down = nf_to < nf_from
